@@ -173,7 +173,7 @@ class Tables:
                 return
             b = s.builtin
             if b in BUILTIN_INT and s.enums is not None:
-                out.append("Atom.enum [" + ", ".join('"%s".toList' % v for v in s.enums) + "]")
+                out.append("Atom.ienum [" + ", ".join("(%d)" % int(v) for v in s.enums) + "]")
             elif b in BUILTIN_INT:
                 lo, hi = BUILTIN_INT[b]
                 f = s.facets
